@@ -625,6 +625,12 @@ impl<Tx: Debug + ProstMessage + Default, Rx: Debug + ProstMessage + Default> Cha
         }
 
         if self.front_buf.available_space() == 0 {
+            // Reclaim the bytes already consumed at the front of the buffer
+            // before concluding that it is full: `consume` only shifts past
+            // the half-way mark, so `position` may still be non-zero here.
+            self.front_buf.shift();
+        }
+        if self.front_buf.available_space() == 0 {
             if self.front_buf.capacity() >= self.max_buffer_size {
                 return Err(ChannelError::BufferFull {
                     capacity: self.front_buf.capacity(),
